@@ -21,7 +21,6 @@ def pick_assignments(prog, quick):
         pick = [{k: ['S'] for k in keys}]
         for k in keys:
             pick.append({x: ['E' if x == k else 'S'] for x in keys})
-        pick.append({k: ['E'] for k in keys})
         return pick
     return assigns
 
@@ -37,7 +36,8 @@ def scenarios(tier):
                 scn = wfscn.ProgScenario(
                     '%s/%s/%s' % (name, tag, sched), prog, results=res,
                     check_prereq=True, scheduler=sched)
-                bound = None if (n <= 3 or not quick) else 2
+                bound = None if (n <= 3 or not quick) else (
+                    2 if n == 4 else 1)
                 jobs.append((scn, bound, 40 if quick else 1200, 1, 'join'))
     for name, (prog, target) in wfgen.reverse_shapes(
             3 if quick else 4).items():
@@ -58,7 +58,7 @@ def scenarios(tier):
 def main(tier):
     rep = common.Report(PROP, tier)
     jobs = common.rotate(scenarios(tier))
-    deadline = time.time() + (170 if tier == 'quick' else 3000)
+    deadline = time.time() + (150 if tier == 'quick' else 3000)
     res = common.parallel_map(common.explore_job,
                               [j[:4] for j in jobs], deadline=deadline)
     for klass in ('join', 'reverse'):
